@@ -3,6 +3,7 @@ package main
 import (
 	"go/ast"
 	"go/token"
+	"strings"
 )
 
 func init() { constGens["archive"] = genArchive }
@@ -227,4 +228,87 @@ func genArchiveMode(s *src, o *out) {
 		}
 	}
 	o.defN("archive_writer_needs_dir", needDir)
+}
+
+func init() { constGens["archive_stream"] = genArchiveStream }
+
+// c15IfaceMethodResult returns the text of the single result type of method m of interface iface.
+func c15IfaceMethodResult(s *src, iface, m string) string {
+	res := ""
+	for _, f := range s.files {
+		ast.Inspect(f, func(n ast.Node) bool {
+			ts, ok := n.(*ast.TypeSpec)
+			if !ok || ts.Name.Name != iface {
+				return true
+			}
+			it, ok := ts.Type.(*ast.InterfaceType)
+			if !ok {
+				return false
+			}
+			for _, fld := range it.Methods.List {
+				if len(fld.Names) == 1 && fld.Names[0].Name == m {
+					if ft, ok := fld.Type.(*ast.FuncType); ok && ft.Results != nil && len(ft.Results.List) == 1 {
+						res = s.text(ft.Results.List[0].Type)
+					}
+				}
+			}
+			return false
+		})
+	}
+	return res
+}
+
+// genArchiveStream reads what the layers above see of an archive stream as a source file:
+//   - archiveFileReader.getFile: there is no underlying file (`return nil`)
+//   - isCompressionProfitable: `file := reader.getFile(); if file == nil { return <b>, nil }` -
+//     the guard fires for the archive reader's nil *os.File only if the compared variable has
+//     the pointer type; a variable of an interface type holding that nil pointer is != nil
+func genArchiveStream(s *src, o *out) {
+	gf := s.fn("archiveFileReader.getFile")
+	if len(gf.Body.List) != 1 || s.text(gf.Body.List[0]) != "return nil" {
+		die("archiveFileReader.getFile no longer is `return nil`: the archive reader has an underlying file and the compression probe would read it (not modelled)")
+	}
+	if gf.Type.Results == nil || len(gf.Type.Results.List) != 1 {
+		die("archiveFileReader.getFile: unexpected result list")
+	}
+	concrete := s.text(gf.Type.Results.List[0].Type)
+	o.raw("Definition archive_reader_file_nil : bool := true.\n")
+
+	body := s.fn("isCompressionProfitable").Body.List
+	if len(body) < 2 {
+		die("isCompressionProfitable: too short")
+	}
+	varType := ""
+	switch st := body[0].(type) {
+	case *ast.AssignStmt:
+		if st.Tok == token.DEFINE && len(st.Lhs) == 1 && s.text(st.Lhs[0]) == "file" && len(st.Rhs) == 1 && s.text(st.Rhs[0]) == "reader.getFile()" {
+			varType = c15IfaceMethodResult(s, "fileReader", "getFile")
+		}
+	case *ast.DeclStmt:
+		if gd, ok := st.Decl.(*ast.GenDecl); ok && gd.Tok == token.VAR && len(gd.Specs) == 1 {
+			vs := gd.Specs[0].(*ast.ValueSpec)
+			if len(vs.Names) == 1 && vs.Names[0].Name == "file" && len(vs.Values) == 1 && s.text(vs.Values[0]) == "reader.getFile()" {
+				if vs.Type != nil {
+					varType = s.text(vs.Type)
+				} else {
+					varType = c15IfaceMethodResult(s, "fileReader", "getFile")
+				}
+			}
+		}
+	}
+	if varType == "" {
+		die("isCompressionProfitable: expected `file := reader.getFile()` (or a var declaration of it) as the first statement, found `%s`", s.text(body[0]))
+	}
+	is, ok := body[1].(*ast.IfStmt)
+	if !ok || s.text(is.Cond) != "file == nil" || len(is.Body.List) != 1 {
+		die("isCompressionProfitable: expected `if file == nil { return <bool>, nil }` as the second statement, found `%s`", s.text(body[1]))
+	}
+	ret, ok := is.Body.List[0].(*ast.ReturnStmt)
+	if !ok || len(ret.Results) != 2 || s.text(ret.Results[1]) != "nil" || (s.text(ret.Results[0]) != "true" && s.text(ret.Results[0]) != "false") {
+		die("isCompressionProfitable: the no-file guard returns `%s`", s.text(is.Body.List[0]))
+	}
+	// `file == nil` is true for the archive reader's nil pointer iff `file` has that pointer type
+	fires := varType == concrete && strings.HasPrefix(concrete, "*")
+	o.raw("Definition archive_probe_guard_fires : bool := %v.\n", fires)
+	o.raw("Definition archive_probe_nofile_compress : bool := %s.\n", s.text(ret.Results[0]))
 }
